@@ -26,6 +26,7 @@ _SOURCE = [
     "V.C20.unknown_caveat",
     "V.C20.missing_caveat",
     "V.C20.get_user",
+    "V.C20.spec_validOk_iff",
 ]
 
 CONFIG = {
